@@ -20,6 +20,19 @@ structure InvK (db : DB) : Prop where
   recs : ∀ r ∈ db.recs, KR r
   k2 : ∀ h, (db.getR h).fp = true → jc db h + tc db h ≤ 1
   k1 : ∀ e ∈ db.tab, (db.getR e.hid).fp = true → (db.getR e.hid).ack + cnt e = reqAcks db.cfg
+  /-- a record whose LOCK journal record is still under way is dead or still waiting for it (never a settled hold) -/
+  kj : ∀ h, jc db h > 0 → (db.getR h).depth = 0 ∨ (db.getR h).pending = true
+
+theorem jc_of_journal {db db' : DB} (e : db'.journal = db.journal) (h : Nat) : jc db' h = jc db h := by unfold jc; rw [e]
+
+/-- a settled hold has no LOCK journal record under way -/
+theorem InvK.jz {db : DB} (hk : InvK db) {h : Nat} (hd : (db.getR h).depth > 0) (hp : (db.getR h).pending = false) : jc db h = 0 := by
+  cases e : jc db h with
+  | zero => rfl
+  | succ n =>
+    rcases hk.kj h (by omega) with h1 | h1
+    · omega
+    · rw [hp] at h1; exact absurd h1 (by decide)
 
 theorem fp_dead (h : Nat) : (deadRec h).fp = false := rfl
 theorem KR_dead (h : Nat) : KR (deadRec h) := by unfold KR deadRec NOACK; simp
@@ -91,15 +104,17 @@ structure AtK (db : DB) (hid : Nat) (r : Rec) : Prop where
   orec : ∀ r' ∈ db.recs, r'.hid ≠ hid → KR r'
   ok2 : ∀ h, h ≠ hid → (db.getR h).fp = true → jc db h + tc db h ≤ 1
   ok1 : ∀ e ∈ db.tab, e.hid ≠ hid → (db.getR e.hid).fp = true → (db.getR e.hid).ack + cnt e = reqAcks db.cfg
+  oj : ∀ h, h ≠ hid → jc db h > 0 → (db.getR h).depth = 0 ∨ (db.getR h).pending = true
 
 theorem AtK.start {db : DB} (ha : InvA db) (hk : InvK db) {hid : Nat} {r : Rec} (e : findR db.recs hid = some r) : AtK db hid r :=
-  ⟨hk.cfg, ha.nodup, e, fun r' hr' _ => hk.recs r' hr', fun h _ => hk.k2 h, fun e he _ => hk.k1 e he⟩
+  ⟨hk.cfg, ha.nodup, e, fun r' hr' _ => hk.recs r' hr', fun h _ => hk.k2 h, fun e he _ => hk.k1 e he, fun h _ => hk.kj h⟩
 
 theorem AtK.getR {db : DB} {hid : Nat} {r : Rec} (h : AtK db hid r) : db.getR hid = r := by rw [getR_eq, h.fnd]; rfl
 
 theorem AtK.finish {db : DB} {hid : Nat} {r : Rec} (h : AtK db hid r) (hr : KR r) (h2 : r.fp = true → jc db hid + tc db hid ≤ 1)
-    (h1 : ∀ e ∈ db.tab, e.hid = hid → r.fp = true → r.ack + cnt e = reqAcks db.cfg) : InvK db := by
-  refine ⟨h.cfg, ?_, ?_, ?_⟩
+    (h1 : ∀ e ∈ db.tab, e.hid = hid → r.fp = true → r.ack + cnt e = reqAcks db.cfg)
+    (hj : jc db hid > 0 → r.depth = 0 ∨ r.pending = true) : InvK db := by
+  refine ⟨h.cfg, ?_, ?_, ?_, ?_⟩
   · intro r' hr'
     by_cases e : r'.hid = hid
     · have h1' := findR_of_mem h.nd hr'
@@ -115,11 +130,15 @@ theorem AtK.finish {db : DB} {hid : Nat} {r : Rec} (h : AtK db hid r) (hr : KR r
     by_cases e1 : e.hid = hid
     · rw [e1, h.getR] at hf ⊢; exact h1 e he e1 hf
     · exact h.ok1 e he e1 hf
+  · intro a ha
+    by_cases e : a = hid
+    · subst e; rw [h.getR]; exact hj ha
+    · exact h.oj a e ha
 
 theorem AtK.modR {db : DB} {hid : Nat} {r : Rec} (h : AtK db hid r) (f : Rec → Rec) (hf : ∀ r, (f r).hid = r.hid) :
     AtK (db.modR hid f) hid (f r) := by
   have hg : ∀ a, a ≠ hid → (db.modR hid f).getR a = db.getR a := fun a ha => getR_modR_ne db hid f hf a ha
-  refine ⟨h.cfg, ?_, ?_, ?_, ?_, ?_⟩
+  refine ⟨h.cfg, ?_, ?_, ?_, ?_, ?_, ?_⟩
   · rw [modR_recs, map_hid_modRecs hid f hf]; exact h.nd
   · rw [modR_recs, findR_modRecs hid f hf]; simp [h.fnd]
   · intro r' hr' hne
@@ -128,14 +147,16 @@ theorem AtK.modR {db : DB} {hid : Nat} {r : Rec} (h : AtK db hid r) (f : Rec →
     · rw [e, hf] at hne; exact absurd (findR_some_mem hr0).2 hne
   · intro a ha hfp; rw [hg a ha] at hfp; exact h.ok2 a ha hfp
   · intro e he hne hfp; rw [hg _ hne] at hfp ⊢; exact h.ok1 e he hne hfp
+  · intro a ha hj; rw [hg a ha]; exact h.oj a ha hj
 
 /-- nothing but `recs` (as a set of the same records), `tab`, `journal`, `cfg` matters -/
 theorem AtK.frame {db db' : DB} {hid : Nat} {r : Rec} (h : AtK db hid r) (e1 : db'.recs = db.recs) (e2 : db'.tab = db.tab)
     (e3 : db'.journal = db.journal) (e4 : db'.cfg = db.cfg) : AtK db' hid r := by
   have hg : ∀ a, db'.getR a = db.getR a := fun a => getR_frame e1 a
-  refine ⟨by rw [e4]; exact h.cfg, by rw [e1]; exact h.nd, by rw [e1]; exact h.fnd, by rw [e1]; exact h.orec, ?_, ?_⟩
+  refine ⟨by rw [e4]; exact h.cfg, by rw [e1]; exact h.nd, by rw [e1]; exact h.fnd, by rw [e1]; exact h.orec, ?_, ?_, ?_⟩
   · intro a ha hfp; rw [hg] at hfp; unfold jc tc; rw [e2, e3]; exact h.ok2 a ha hfp
   · rw [e2, e4]; intro e he hne hfp; rw [hg] at hfp ⊢; exact h.ok1 e he hne hfp
+  · intro a ha hj; rw [hg]; rw [jc_of_journal e3] at hj; exact h.oj a ha hj
 
 theorem AtK.modR' {db db' : DB} {hid : Nat} {r : Rec} (h : AtK db hid r) (f : Rec → Rec) (e1 : db'.recs = modRecs hid f db.recs)
     (hf : ∀ r, (f r).hid = r.hid) (e2 : db'.tab = db.tab) (e3 : db'.journal = db.journal) (e4 : db'.cfg = db.cfg) : AtK db' hid (f r) :=
@@ -147,31 +168,35 @@ theorem AtK.ctrMod {db : DB} {hid : Nat} {r : Rec} (h : AtK db hid r) (f : Count
   h.frame rfl rfl rfl rfl
 
 theorem AtK.toEnd {db : DB} {hid : Nat} {r : Rec} (h : AtK db hid r) (a : Nat) : AtK (db.toEnd a) hid r := by
-  refine ⟨h.cfg, nodup_toEnd h.nd a, ?_, ?_, ?_, ?_⟩
+  refine ⟨h.cfg, nodup_toEnd h.nd a, ?_, ?_, ?_, ?_, ?_⟩
   · unfold DB.toEnd; simp only []; rw [findR_toEnd]; exact h.fnd
   · intro r' hr'; exact h.orec r' (mem_toEnd.mp hr')
   · intro b hb hfp; rw [getR_toEnd] at hfp; exact h.ok2 b hb hfp
   · intro e he hne hfp; rw [getR_toEnd] at hfp ⊢; exact h.ok1 e he hne hfp
+  · intro b hb hj; rw [getR_toEnd]; exact h.oj b hb hj
 
 /-- a journal record OF THIS RECORD (or one without lock pointer) is appended -/
 theorem AtK.pushJ {db : DB} {hid : Nat} {r : Rec} (h : AtK db hid r) (r0 : Rec) (hr0 : r0.hid = hid) (b : Bool) : AtK (db.pushJ r0 b).1 hid r := by
   have hg : ∀ a, (db.pushJ r0 b).1.getR a = db.getR a := fun a => getR_frame (pushJ_recs db r0 b) a
-  refine ⟨by rw [pushJ_cfg]; exact h.cfg, by rw [pushJ_recs]; exact h.nd, by rw [pushJ_recs]; exact h.fnd, by rw [pushJ_recs]; exact h.orec, ?_, ?_⟩
+  have e2 : ∀ a, a ≠ hid → jc (db.pushJ r0 b).1 a = jc db a := by
+    intro a ha
+    unfold DB.pushJ jc
+    split
+    · rfl
+    · split
+      · rfl
+      · simp only []; rw [jcL_append]
+        have : jcL [{ key := r0.cmd.key, isLock := b, hid := if r0.cmd.ack = true then some r0.hid else none }] a = 0 := by
+          rw [jcL_zero_iff]; intro j hj _ he; simp at hj; subst hj; simp at he; omega
+        omega
+  refine ⟨by rw [pushJ_cfg]; exact h.cfg, by rw [pushJ_recs]; exact h.nd, by rw [pushJ_recs]; exact h.fnd, by rw [pushJ_recs]; exact h.orec, ?_, ?_, ?_⟩
   · intro a ha hfp
     rw [hg] at hfp
     have := h.ok2 a ha hfp
     have e1 : tc (db.pushJ r0 b).1 a = tc db a := by unfold tc; rw [pushJ_tab]
-    have e2 : jc (db.pushJ r0 b).1 a = jc db a := by
-      unfold DB.pushJ jc
-      split
-      · rfl
-      · split
-        · rfl
-        · simp only []; rw [jcL_append]
-          have : jcL [{ key := r0.cmd.key, isLock := b, hid := if r0.cmd.ack = true then some r0.hid else none }] a = 0 := by
-            rw [jcL_zero_iff]; intro j hj _ he; simp at hj; subst hj; simp at he; omega
-          omega
+    have := e2 a ha
     omega
   · rw [pushJ_tab, pushJ_cfg]; intro e he hne hfp; rw [hg] at hfp ⊢; exact h.ok1 e he hne hfp
+  · intro a ha hj; rw [hg]; rw [e2 a ha] at hj; exact h.oj a ha hj
 
 end Slock.Ack
